@@ -14,11 +14,11 @@ CHECKS = {
          "TLC-generated behaviours replayed into the real API + trace validation against Enc4/Canonical"),
  "C10": ("6", "Client.tla (callers, receive loop, pending map, per-entry channel/done, mutex, Close) model-checked exhaustively in a small scope for OwnTransaction/FirstAcceptable/NoNilDelivery/ChanClosedOnlyAfterOwnDone/RefuseWhilePending/Isolation; the deliberately wrong design must fail (non-vacuity) and its counterexample schedule, TLC -simulate behaviours and random-scheduler runs are executed on the real nclient4 and nclient6 under a gate scheduler; every recorded execution is validated by TLC against the same actions",
          "TLC model check of Client.tla + TLC-chosen schedules replayed into the real clients (gate hooks, synctest) + trace validation"),
- "C11": ("6", "Client.tla in timed/urgent mode (testing/synctest semantics): Deadline, CtxPrompt, ClosePrompt, IdReusable, CloseStopsLoop model-checked; real clients run in virtual time under the gate scheduler with urgent policy, tries 0..4 and -1, ctx cancel and Close at random instants; TLC validates every execution (a Tick while the specification still has an enabled internal step, or a wake-up at the wrong instant, is rejected); leaving the synctest bubble requires every client goroutine to have exited",
+ "C11": ("6", "Client.tla in timed/urgent mode (testing/synctest semantics): Deadline, CtxPrompt, ClosePrompt, IdReusable, CloseStopsLoop model-checked; real clients run in virtual time under the gate scheduler with urgent policy, tries 0..4 and negative, timeouts from 0, ctx cancel (plain, by deadline, with a cause) and Close (from outside, from a matcher, again) at random instants, write and read faults, call histories, the calls built on SendAndRead (DiscoverOffer, Inform, Solicit, RapidSolicit ...); liveness (every call returns, Close returns) model-checked under weak fairness with a wrong design that must violate it; TLC validates every execution (a Tick while the specification still has an enabled internal step, or a wake-up at the wrong instant, is rejected); leaving the synctest bubble requires every client goroutine to have exited",
          "TLC model check of timed Client.tla + trace validation of virtual-time executions of the real clients"),
  "C12": ("6", "same machinery as C11; the Schedule / NoRespAtBudget / NoTxAfterAccept properties of Client.tla are model-checked and every recorded Transmit must occur at start + T*(2^(i-1)-1) with identical bytes to the requested destination; NoResponse exactly at T*(2^n-1)",
          "TLC model check of timed Client.tla + trace validation of recorded transmissions"),
- "C14": ("6", "Server.tla (one or two goroutines running Serve: read, decode, skip or spawn handler, Close, handlers outliving later reads) model-checked exhaustively for ExactlyOnce/PeerRule/OwnMessage/ReturnOnlyOnError/LoopSurvives, wrong designs (stop on parse error, read buffer kept across iterations, read buffer shared by the loops) must fail; TLC -simulate behaviours and random scripts are executed on the real server4/server6 Serve loops over a scripted connection and every recorded execution is validated by TLC",
+ "C14": ("6", "Server.tla (one or two goroutines running Serve: read, decode, skip or spawn handler, Close, handlers outliving later reads) model-checked exhaustively for ExactlyOnce/PeerRule/OwnMessage/ReturnOnlyOnError/LoopSurvives, wrong designs (stop on parse error, read buffer kept across iterations, read buffer shared by the loops) must fail; TLC -simulate behaviours and random scripts are executed on the real server4/server6 Serve loops over a scripted connection (gated, and in bursts of up to 120 queued datagrams with real parallelism between the loop and its handlers) and every recorded execution is validated by TLC",
          "TLC model check of Server.tla + TLC behaviours replayed into the real servers + trace validation"),
  "C18": ("6", "RawUdp.tla (RFC 791/768/1071 frame layout, ones'-complement checksums, frame acceptance and payload extraction) model-checked in a small scope (writer frames verify under an independent receiver-side check; reader returns exactly the matching payloads); every frame written by the real BroadcastRawUDPConn and every result of reading harness-built frame sequences is validated by TLC against the same operators",
          "TLC model check of RawUdp.tla + trace validation of written frames and read sequences"),
@@ -42,7 +42,7 @@ CHECKS = {
          "TLC totality invariants + TLC-enumerated conversations replayed + trace validation of recorded runs (panic/timeout = no behaviour of the spec)"),
  "C13": ("6", "Lease.tla: the DISCOVER/OFFER, REQUEST/ACK|NAK (and SOLICIT/ADVERTISE, REQUEST/REPLY, rapid commit) exchanges against an adversarial environment, model-checked for LeaseRule/NakRule/RequestRule/IgnoreRule; every server behaviour with one reply per transmission (exhaustive) and simulated/exhaustive behaviours with two are played by a reactive scripted connection against the real nclient4.Request/Renew/Release and nclient6 Solicit/Request/RapidSolicit in virtual time; TLC compares transmissions and outcome with the expectation and judges every transmitted message with the Dhcp4Build/Dhcp6Build operators",
          "TLC model check of Lease.tla + TLC-enumerated server behaviours replayed into the real clients + trace validation with builder operators"),
- "C09": ("6", "Cost.tla: cost semantics of decoding (flat pass + one copy of the remainder per nesting level on decode and on re-encode), model-checked nesting machine (work <= n + 2*n*depth, at most quadratic) and the bound operators AllocBound(n, depth) / SizeBound(n); the real decoders are measured (bytes allocated by decode + re-encode, reflective retained size, in a child process with a time limit) on the witness families the cost semantics exposes, at sizes up to 65507 bytes, and TLC evaluates the bounds on every measurement; one known finding (compression-pointer fan) is listed in known_findings.txt",
+ "C09": ("6", "Cost.tla: cost semantics of decoding (flat pass + one copy of the remainder per nesting level on decode and on re-encode), model-checked nesting machine (work <= n + 2*n*depth, at most quadratic) and the bound operators AllocBound(n, depth) / SizeBound(n); the real decoders are measured (bytes allocated by decode + re-encode + one read of every DHCPv4 typed value, reflective retained size, in a child process with a time limit; also through server4/server6 with the default logger) on the witness families the cost semantics exposes, at sizes up to 65507 bytes, and TLC evaluates the bounds on every measurement; one known finding (compression-pointer fan) is listed in known_findings.txt",
          "TLC model check of the nesting-cost machine + trace validation of measured allocation against the spec's bound operators"),
 }
 
